@@ -29,7 +29,7 @@ def gen_tied(rng, i):
 def gen(rng, i):
     if i % 6 == 4:
         return gen_tied(rng, i)
-    mb, info = gm.gen_model(rng, n_subgraphs=1 if i % 5 else 2)
+    mb, info = gm.gen_model(rng, n_subgraphs=1 if i % 5 else 2, alias_sig=0.0)
     data = gm.random_inputs(mb, rng, n=1)
     names = list(pl.UNIFORM)
     r = rng.random()
